@@ -1167,6 +1167,27 @@ func TestVerifC13(t *testing.T) {
 		return []string{"A"}, []int{1, 2, 3}
 	}
 
+	// ---- sampled, supplementary part 1 (first, cheap, fixed cost): native multi-worker runs on the big
+	// two-level trees, every setting x 2, 3, 8 workers x reps repetitions ----
+	if runtime.GOMAXPROCS(0) < 8 {
+		runtime.GOMAXPROCS(8)
+	}
+	reps := 5
+	if thorough {
+		reps = 20
+	}
+	kbig := 0
+	for _, fam := range []string{"bigtree:24:d", "bigtree:24:t"} {
+		for _, st := range settings {
+			for _, w := range []int{2, 3, 8} {
+				kbig++
+				if r.Mine(kbig) {
+					evalNative(bigCase(fam, st.d, st.ratio, w, reps))
+				}
+			}
+		}
+	}
+
 	// ---- exhaustive part: one worker, one OS thread's worth of parallelism (cheap goroutine hand-offs) ----
 	oldProcs := runtime.GOMAXPROCS(1)
 	k := 0
@@ -1202,7 +1223,7 @@ func TestVerifC13(t *testing.T) {
 		runtime.GOMAXPROCS(8)
 	}
 
-	// ---- sampled, supplementary part: native multi-worker runs. Never counted as exhaustive; it has its
+	// ---- sampled, supplementary part 2: native multi-worker runs on the small sets. Never counted as exhaustive; it has its
 	// own time limit (15 s quick, 120 s thorough, never beyond 85% of the deadline) and stops silently ----
 	phaseB := time.Now()
 	limitB := 15 * time.Second
@@ -1217,25 +1238,7 @@ func TestVerifC13(t *testing.T) {
 		return (budget > 0 && time.Since(start) > budget) || time.Since(phaseB) > limitB
 	}
 	truncated := false
-	reps := 3
-	if thorough {
-		reps = 10
-	}
 	kb := 0
-	for _, st := range settings {
-		for _, w := range []int{2, 3, 8} {
-			kb++
-			if !r.Mine(kb) {
-				continue
-			}
-			if outOfTime() {
-				truncated = true
-				continue
-			}
-			evalNative(bigCase("bigtree:24:d", st.d, st.ratio, w, reps))
-		}
-	}
-	kb = 0
 	c13Sets(thorough, func(s c13Set) {
 		kb++
 		if !r.Mine(kb) || truncated {
